@@ -12,11 +12,10 @@ def main():
     print(out[-3000:])
     if rc != 0:
         print("setup: coq build failed (checks will report it per property)")
-    for crate in ["ntp-proto", "ntpd", "statime-wire", "statime-base", "statime-algo", "statime-csptp"]:
-        exe, log, mode = vplib.build_harness(crate, "c00")
-        print("harness", crate, "->", exe, mode)
-        if exe is None:
-            print(log[-2000:])
+    exe, log, mode = vplib.build_harness("ntp-proto", "c00")
+    print("harness build ->", exe, mode)
+    if exe is None:
+        print(log[-3000:])
     return 0
 
 
